@@ -7,6 +7,7 @@ import CuqiVerif.Model.C17_psf
 import CuqiVerif.Model.C17_phantom
 import CuqiVerif.Model.C17_grids
 import CuqiVerif.Model.C17_state
+import CuqiVerif.Model.C17_options
 open CuqiVerif CuqiVerif.Proto CuqiVerif.C07 CuqiVerif.C17
 
 /-!
@@ -39,6 +40,8 @@ Line protocol of the C17 model (R = Rat).
   grids heat <dim> <endpoint> <maxTime> -> `x=<vec> k=<iters> t=<vec>`
   grids abel <n> <endpoint>           -> `t=<vec> geom=<vec>`
   hist  <lik,data,model,prior> <ops>  -> `lik=<id> data=<id> model=<id> prior=<id> refused=<n>` after the history; ops `;`-separated: `P<id>` (tp.prior = …), `L<lik>,<data>,<model>` (tp.likelihood = …), `D` (set_data)
+  d1opts <dim> <legacy 0|1> <BC> <PSF_size|none> <PSF> <PSF_param==0 0|1> <phantom> <phantom refused 0|1> <noise_type> -> `ok` | `raises:<cls>`
+                                   PSF / phantom: `A<ndim>,<len>` (ndarray) | `S<string>` | `O` (anything else)
   phantom <name> <dim> <param|none> -> `x=<vec>` | `nan` | `raises:<cls>` | `leaf` (not an exactly computable phantom)
 -/
 
@@ -99,6 +102,17 @@ def parsePOp (t : String) : Option POp :=
     | [some l, some d, some m] => some (.setLik l d m)
     | _ => none
   else none
+
+def parseArg (t : String) : Option Arg :=
+  if t = "O" then some .other
+  else if t.startsWith "S" then some (.str (t.drop 1).toString)
+  else if t.startsWith "A" then
+    match ((t.drop 1).toString.splitOn ",").map String.toNat? with
+    | [some nd, some len] => some (.array nd len)
+    | _ => none
+  else none
+
+def parseBit (t : String) : Option Bool := if t = "1" then some true else if t = "0" then some false else none
 
 def step : List String → String
   | ["dc1", bc, n, p] =>
@@ -296,6 +310,13 @@ def step : List String → String
       let r := (PState.mk l d m p).run ops
       s!"lik={r.1.lik} data={r.1.likData} model={r.1.likModel} prior={r.1.prior} refused={r.2} comp={r.1.components.1},{r.1.components.2}"
     | _, _ => "bad-op"
+  | ["d1opts", dim, leg, bc, sz, psf, pz, ph, pr, noise] =>
+    match dim.toNat?, parseBit leg, parseOptNat sz, parseArg psf, parseBit pz, parseArg ph, parseBit pr with
+    | some dim, some leg, some sz, some psf, some pz, some ph, some pr =>
+      match deconv1dRefusal { dim := dim, legacy := leg, bc := bc, psfSize := sz, psf := psf, psfParamZero := pz, phantom := ph, phantomRefused := pr, noise := noise } with
+      | none => "ok"
+      | some cls => s!"raises:{cls}"
+    | _, _, _, _, _, _, _ => "bad-op"
   | ["phantom", name, dim, par] =>
     match dim.toNat?, parseOptRat par with
     | some dim, some par =>
